@@ -187,3 +187,24 @@ def voicing_measures(ref_voicing: Arr(Real, None), est_voicing: Arr(Real, None))
     """the pair (voicing_recall, voicing_false_alarm) of the same arguments"""
     raises(ValueError, when=not voicing_ok(ref_voicing, est_voicing), props="C14")
     ensures(0 <= result[0], result[0] <= 1, 0 <= result[1], result[1] <= 1, label='range', props="C01")
+
+
+@lemma("C02")
+def lemma_melody_perfect(v: Arr(Real, None), c: Arr(Real, None), tol: Real):
+    """an exact copy of a (binary-voiced) melody: false alarm 0 always; recall, raw pitch and raw chroma accuracy 1 whenever they are defined
+    (some voiced frame; voiced frames carry a pitch)"""
+    n = length(v)
+    requires(n > 0, length(c) == n, tol > 0, forall(0, n, lambda i: v[i] == 0 or v[i] == 1))
+    requires(forall(0, n, lambda i: implies(v[i] == 1, c[i] != 0)))
+    # false alarm: est * [ref == 0] vanishes frame by frame
+    sum_zero(array_of(n, lambda i: v[i] * ite(v[i] == 0, 1.0, 0.0)))
+    ensures(voicing_false_alarm(v, v) == 0, label='false-alarm-0')
+    # recall: est * [ref > 0] == [ref > 0] frame by frame
+    sum_eq(array_of(n, lambda i: v[i] * ite(v[i] > 0, 1.0, 0.0)), array_of(n, lambda i: ite(v[i] > 0, 1.0, 0.0)))
+    ensures(voicing_recall(v, v) == 1, label='recall-1')
+    # raw pitch / chroma: every voiced frame is a hit, so the numerator is the total voicing
+    sum_eq(array_of(n, lambda i: ite(pitch_hit(c, c, tol, i), v[i], 0.0)), v)
+    sum_eq(array_of(n, lambda i: ite(chroma_hit(c, c, tol, i), v[i], 0.0)), v)
+    sum_nonneg(v)
+    ensures(implies(sum_of(v) > 0 and sum_of(array_of(n, lambda i: ite(c[i] != 0 and c[i] != 0, 1, 0), dtype='int')) != 0,
+                    raw_pitch_accuracy(v, c, v, c, tol) == 1 and raw_chroma_accuracy(v, c, v, c, tol) == 1), label='raw-accuracies-1')
